@@ -5,6 +5,7 @@ import json
 
 import vlib
 import _cesium as C
+import _fcconc
 
 TRACE_CFG = """SPECIFICATION TSpec
 CONSTANTS
@@ -82,6 +83,12 @@ def design_stage(ctx):
     r = ctx.tlc(C.AREA, "DomainGC", "gc_res.cfg", files={"gc_res.cfg": GC_CFG % (b(0), b(0), b(0), '"r1"', "ReadsOwnDomainEvenIfCut")},
                 workers=1, tag="gc_residual", timeout=300, expect_violation=True)
     runs.append({"config": "repaired, residual window (reader positioned before a cut + compaction)", "violated": r.violated})
+    # FileControllerConc.tla: garbage collection vs a writer opening the same file (prepareForGC's re-test
+    # under writers.Lock, newWriter under one hold of it); masked run must hold, each deviation must reproduce
+    s2, t2, r2 = _fcconc.design_runs(ctx)
+    st += s2
+    tr += t2
+    runs.extend(r2)
     return st, tr, runs
 
 
